@@ -68,7 +68,7 @@ def ownership(ctx):
                     ctx.ob(f, st, False, f'{norm(recv)}.{tgt.attr} is written outside TransferCoordinator (receiver type: {"coordinator" if is_coord else "unknown"})')
 
 
-@rule('C17.b', ['C17', 'C07', 'C05'], floor=6)
+@rule('C17.b', ['C17', 'C07', 'C05', 'C03', 'C08'], floor=6)
 def guarded_stores(ctx):
     """Non-done status stores only behind `if self.done(): raise`; 'cancelled' and the
     set_exception stores are control dependent on not done() (or override); done() is
